@@ -23,6 +23,11 @@ func init() {
 		ruleNlinkWriters(c, "C15.K8")
 		// fully usable: every free block can be had (no refusal while the allocator has numbers)
 		ruleAllocRefusal(c, "C15.K9")
+		// what an aborted transaction held goes back to the allocator it came from (or the data region cannot be
+		// filled again until a restart), and the bitmap bits reach the disk with the object that owns the blocks
+		// (a format cut between the two leaves data blocks marked for good)
+		ruleR3(c, "C15.K10")
+		ruleR2(c, "C15.K11")
 	}
 }
 
